@@ -47,18 +47,33 @@ Fixpoint drop_ows (l : bytes) : bytes :=
   match l with c :: l' => if is_ows c then drop_ows l' else l | [] => [] end.
 Definition trim (l : bytes) : bytes := rev (drop_ows (rev (drop_ows l))).
 
-Definition hexval (c : N) : option N :=
-  if is_digit c then Some (c - 48)
-  else if (97 <=? c) && (c <=? 102) then Some (c - 87)
-  else if (65 <=? c) && (c <=? 70) then Some (c - 55)
-  else None.
-Fixpoint parse_hex_acc (acc : N) (l : bytes) : option N :=
+(* chunk-size = 1*HEXDIG (either case), read through the standard library's hexadecimal numbers *)
+Fixpoint hexbytes_uint (l : bytes) : option Hexadecimal.uint :=
   match l with
-  | [] => Some acc
-  | c :: l' => match hexval c with Some d => parse_hex_acc (16 * acc + d) l' | None => None end
+  | [] => Some Hexadecimal.Nil
+  | c :: l' =>
+      match hexbytes_uint l' with
+      | None => None
+      | Some u =>
+          if c =? 48 then Some (Hexadecimal.D0 u) else if c =? 49 then Some (Hexadecimal.D1 u)
+          else if c =? 50 then Some (Hexadecimal.D2 u) else if c =? 51 then Some (Hexadecimal.D3 u)
+          else if c =? 52 then Some (Hexadecimal.D4 u) else if c =? 53 then Some (Hexadecimal.D5 u)
+          else if c =? 54 then Some (Hexadecimal.D6 u) else if c =? 55 then Some (Hexadecimal.D7 u)
+          else if c =? 56 then Some (Hexadecimal.D8 u) else if c =? 57 then Some (Hexadecimal.D9 u)
+          else if (c =? 97) || (c =? 65) then Some (Hexadecimal.Da u)
+          else if (c =? 98) || (c =? 66) then Some (Hexadecimal.Db u)
+          else if (c =? 99) || (c =? 67) then Some (Hexadecimal.Dc u)
+          else if (c =? 100) || (c =? 68) then Some (Hexadecimal.Dd u)
+          else if (c =? 101) || (c =? 69) then Some (Hexadecimal.De u)
+          else if (c =? 102) || (c =? 70) then Some (Hexadecimal.Df u)
+          else None
+      end
   end.
 Definition parse_hex (l : bytes) : option N :=
-  match l with [] => None | _ => parse_hex_acc 0 l end.
+  match l with
+  | [] => None
+  | _ => match hexbytes_uint l with Some u => Some (N.of_hex_uint u) | None => None end
+  end.
 
 Inductive delim := DNoBody | DLength | DChunked | DClose.
 Definition delim_eqb (x y : delim) : bool :=
